@@ -4,10 +4,18 @@
 -/
 import Sbepp.Drive.Common
 import Sbepp.Drive.C15
+import Sbepp.Drive.Wire
 
 open Sbepp.Drive
 
+/-- requests whose payload is one S-expression: `<cmd> <sexp...>` -/
+def payloadOf (line : String) (cmd : String) : String := (line.trimAscii.toString.drop cmd.length).toString
+
 def dispatch (line : String) : String :=
+  if line.startsWith "layout " then Wire.layout (payloadOf line "layout")
+  else if line.startsWith "decode " then Wire.decode (payloadOf line "decode")
+  else if line.startsWith "encode " then Wire.encode (payloadOf line "encode")
+  else
   match (line.trimAscii.toString.splitOn " ").filter (· ≠ "") with
   | [] => ""
   | cmd :: args =>
